@@ -1096,7 +1096,7 @@ func emitIfStmt(cb *CodeBuilder, p *ifStmt, el ast.Stmt) {
 
 func emitSWitchStmt(cb *CodeBuilder, p *switchStmt, stmts []ast.Stmt) {
 	body := &ast.BlockStmt{List: stmts}
-	cb.emitStmt(&ast.SwitchStmt{Init: p.init, Tag: checkParenExpr(p.tag.Val), Body: body})
+	cb.emitStmt(&ast.SwitchStmt{Init: p.init, Tag: checkParenCtrlExpr(p.tag.Val), Body: body})
 }
 
 func emitFullthrough(cb *CodeBuilder) {
